@@ -4,6 +4,8 @@ import HmfVerif.Proofs.ExprLemmas
 import Mathlib.Analysis.SpecialFunctions.Exp
 import Mathlib.Analysis.SpecialFunctions.Gaussian.GaussianIntegral
 import HmfVerif.Proofs.AnalysisFits
+import HmfVerif.Gen.Guards
+import HmfVerif.Spec.Guards
 /-!
 # C07 — fitting functions are pointwise, finite, non-negative, (PS) single-peaked and bounded
 
@@ -242,5 +244,8 @@ theorem PS_unimodal (opq) (ρ : String → ℝ) :
     rw [mul_assoc, mul_assoc]; exact mul_le_mul_of_nonneg_left this hc
 
 end PSAnalysis
+
+/-- validity masks, the z = 0 branches and the positivity tests of the fits are the documented ones; no new special case in any fit -/
+theorem guards_fits : Gen.Guards.fits = Spec.Guards.fits := by decide
 
 end Hmf.C07
